@@ -95,7 +95,7 @@ impl Prop for Interpolation {
         16000
     }
     fn cases(&self, tier: Tier) -> u32 {
-        tier.pick(1_200, 30_000)
+        tier.pick(10_000, 150_000)
     }
     fn decode(&self, t: &mut Tape, _: Tier) -> Case {
         let n = t.urange(1, 4);
